@@ -162,6 +162,7 @@ def instrumented():
     with contextlib.ExitStack() as st:
         st.enter_context(mock.patch.object(sm.JokerSamples, "write", write))
         st.enter_context(mock.patch.object(sm.JokerSamples, "unpack", classmethod(unpack)))
+        st.enter_context(mock.patch.object(sm, "write_table_hdf5", _wrap_both("write_table_hdf5", sm.write_table_hdf5)))
         st.enter_context(mock.patch.object(tables, "open_file", _wrap("tables.open_file", tables.open_file)))
         st.enter_context(mock.patch.object(h5py, "File", CountingFile))
         st.enter_context(mock.patch.object(mh, "read_batch", _wrap("read_batch", mh.read_batch)))
@@ -169,6 +170,10 @@ def instrumented():
         st.enter_context(mock.patch.object(mh, "marginal_ln_likelihood_worker", _wrap_worker(mh.marginal_ln_likelihood_worker)))
         st.enter_context(mock.patch.object(mh, "make_full_samples_worker", _wrap_worker(mh.make_full_samples_worker)))
         yield
+
+
+def all_files(directory):
+    return [os.path.join(r, fn) for r, _, files in os.walk(directory) for fn in files]
 
 
 def hdf5_files(directory):
